@@ -59,6 +59,7 @@ type run struct {
 	cfg    nodeCfg
 	drifts int
 	stuck  string
+	loop   bool // the chain has stopped and the node is rewound again and again: it will never be at rest
 	fatal  string
 	// the detector stamps a detected reorg with the wall-clock second (primary key of reorg_event together with
 	// subscriber and range): a second detection of the same range within the same second fails and is retried on the
@@ -186,7 +187,7 @@ func (r *run) play(id int, dir string, seed uint64) error {
 	for _, x := range rows {
 		content = append(content, tr.M{"n": x.N, "v": r.c.name(x.N, x.Hash), "evs": x.Evs})
 	}
-	r.c.Emit(tr.M{"ev": "end", "quiet": quiet, "stuck": r.stuck, "fatal": r.fatal, "drift": r.drifts, "last": last, "store": content})
+	r.c.Emit(tr.M{"ev": "end", "quiet": quiet, "stuck": r.stuck, "loop": r.loop, "fatal": r.fatal, "drift": r.drifts, "last": last, "store": content})
 	if err := r.n.stop(stuckWait); err != nil {
 		return err
 	}
@@ -422,6 +423,7 @@ func (r *run) quiesce() bool {
 	gens := r.n.genCount()
 	lastDrv, sameDrv := "", 0
 	var staleSince time.Time
+	rewinds := 0
 	for it := 0; it < 5000; it++ {
 		if r.n.genCount() != gens {
 			gens = r.n.genCount()
@@ -453,6 +455,9 @@ func (r *run) quiesce() bool {
 			who := "drv"
 			if w.key == "acked" {
 				who = "rd"
+			} else if rewinds++; rewinds > 30 {
+				r.stuck, r.loop = "rewound 30 times with the chain stopped", true
+				return false
 			}
 			if !r.e.await(func() bool { return r.e.find(who) != nil }, stuckWait) {
 				r.stuck = "nobody arrived after " + w.key
